@@ -53,11 +53,11 @@ type Match struct {
 }
 
 func (m Match) validate(allowEmpty bool) error {
-	if _, err := regexp.Compile(m.Path); err != nil {
+	if _, err := regexp.Compile("^(?:" + m.Path + ")$"); err != nil {
 		return err
 	}
 
-	if _, err := regexp.Compile(m.Name); err != nil {
+	if _, err := regexp.Compile("^(?:" + m.Name + ")$"); err != nil {
 		return err
 	}
 
@@ -127,14 +127,14 @@ func (m Match) IsMatch(ctx context.Context, path string, e discovery.Entry) bool
 	}
 
 	if m.Path != "" {
-		re := strictRegex(m.Path)
+		re := matchRegex(m.Path)
 		if !re.MatchString(path) {
 			return false
 		}
 	}
 
 	if m.Name != "" {
-		re := strictRegex(m.Name)
+		re := matchRegex(m.Name)
 		if e.Rule.AlertingRule != nil && !re.MatchString(e.Rule.AlertingRule.Alert.Value) {
 			return false
 		}
@@ -190,18 +190,18 @@ type MatchLabel struct {
 }
 
 func (ml MatchLabel) validate() error {
-	if _, err := regexp.Compile(ml.Key); err != nil {
+	if _, err := regexp.Compile("^(?:" + ml.Key + ")$"); err != nil {
 		return err
 	}
-	if _, err := regexp.Compile(ml.Value); err != nil {
+	if _, err := regexp.Compile("^(?:" + ml.Value + ")$"); err != nil {
 		return err
 	}
 	return nil
 }
 
 func (ml MatchLabel) isMatching(entry discovery.Entry) bool {
-	keyRe := strictRegex(ml.Key)
-	valRe := strictRegex(ml.Value)
+	keyRe := matchRegex(ml.Key)
+	valRe := matchRegex(ml.Value)
 
 	for _, label := range entry.Labels().Items {
 		if keyRe.MatchString(label.Key.Value) && valRe.MatchString(label.Value.Value) {
@@ -218,18 +218,18 @@ type MatchAnnotation struct {
 }
 
 func (ma MatchAnnotation) validate() error {
-	if _, err := regexp.Compile(ma.Key); err != nil {
+	if _, err := regexp.Compile("^(?:" + ma.Key + ")$"); err != nil {
 		return err
 	}
-	if _, err := regexp.Compile(ma.Value); err != nil {
+	if _, err := regexp.Compile("^(?:" + ma.Value + ")$"); err != nil {
 		return err
 	}
 	return nil
 }
 
 func (ma MatchAnnotation) isMatching(rule parser.Rule) bool {
-	keyRe := strictRegex(ma.Key)
-	valRe := strictRegex(ma.Value)
+	keyRe := matchRegex(ma.Key)
+	valRe := matchRegex(ma.Value)
 
 	if rule.AlertingRule == nil || rule.AlertingRule.Annotations == nil {
 		return false
@@ -339,4 +339,10 @@ func stateMatches(states []string, state discovery.ChangeType) bool {
 		}
 	}
 	return false
+}
+
+// matchRegex anchors the whole pattern, including every branch of a top level
+// alternation: "^foo|bar$" would match "foox" and "xbar".
+func matchRegex(s string) *regexp.Regexp {
+	return regexp.MustCompile("^(?:" + s + ")$")
 }
